@@ -216,9 +216,45 @@ def job_spd(args):
     except Exception as e:
         r.mismatches.append(dict(where="spd file parse", input=path, impl=repr(e), model="parsable"))
         return r
+    base = list(data)
+    nvar = 6 if tier == "quick" else 40
+    for var in range(nvar + 1):
+        data = spd_variant(base, rnd) if var else list(base)
+        spd_one(r, path, data, "SPD:" + os.path.basename(path) + ("" if not var else " (timing bytes varied, variant %d)" % var), tier, rnd, var)
+    r.coverage["spd_images"] = 1
+    r.coverage["spd_variants"] = nvar
+    return r
+
+
+def spd_variant(base, rnd):
+    """the same SPD image with its timing bytes redrawn (legal encodings: reserved bits stay 0, upper nibbles are exercised)"""
+    b = list(base)
+    if b[2] == 0x0b:      # DDR3
+        for i in (17, 18, 19, 20, 26, 27):
+            b[i] = rnd.randrange(20, 160)
+        b[22] = rnd.randrange(256); b[23] = rnd.randrange(256); b[21] = (rnd.randrange(0, 3) << 4) | rnd.randrange(0, 3)   # tRAS / tRC upper nibbles
+        b[24] = rnd.randrange(256); b[25] = rnd.randrange(1, 5)                                                              # tRFC
+        b[29] = rnd.randrange(256); b[28] = rnd.randrange(0, 3)                                                              # tFAW: upper nibble in bits 3..0
+        for i in (35, 36, 37, 38):   # byte 34 is the fine offset of tCKmin (selects the speed grade): kept
+            b[i] = rnd.choice([0, 0, rnd.randrange(256)])
+    elif b[2] == 0x0c:    # DDR4
+        for i in (24, 25, 26, 38, 39, 40):
+            b[i] = rnd.randrange(30, 160)
+        b[28] = rnd.randrange(256); b[29] = rnd.randrange(256); b[27] = (rnd.randrange(0, 3) << 4) | rnd.randrange(0, 3)
+        for lo, hi in ((30, 31), (32, 33), (34, 35)):
+            b[lo] = rnd.randrange(256); b[hi] = rnd.randrange(1, 12)
+        b[37] = rnd.randrange(256); b[36] = rnd.randrange(0, 3)
+        b[42] = rnd.randrange(256); b[41] = rnd.randrange(0, 2)
+        b[44] = rnd.randrange(256); b[45] = rnd.randrange(256); b[43] = (rnd.randrange(0, 2) << 4) | rnd.randrange(0, 2)
+        for i in (117, 118, 119, 120, 121, 122, 123):
+            b[i] = rnd.choice([0, 0, rnd.randrange(256)])
+    return b
+
+
+def spd_one(r, path, data, label, tier, rnd, var):
+    from litedram.modules import SDRAMModule
     ref = spd_reference(data)
-    label = "SPD:" + os.path.basename(path)
-    fs = rnd.sample(freqs(tier, rnd), 12 if tier == "quick" else 100)
+    fs = rnd.sample(freqs(tier, rnd), (12 if tier == "quick" else 100) if not var else 3)
     modes = ["1x", "2x", "4x"] if data[2] == 0x0c else [None]
     for mode in modes:
         def mk(f, mode=mode):
@@ -239,12 +275,11 @@ def job_spd(args):
             if got is None or abs(exact(got) - ref[rk]) > F(1, 10 ** 6):
                 if len(r.violations) < 5:
                     r.violations.append(dict(signature="c16-spd-decode", what="%s: %s decoded as %r ns, SPD bytes say %s ns" % (label, name, got, float(ref[rk])),
-                                             replay=dict(file=path, field=name, got=got, want=str(ref[rk]))))
+                                             replay=dict(file=path, field=name, got=got, want=str(ref[rk]), variant=var,
+                                                         spd_bytes_0_63=data[:64], spd_bytes_117_125=data[117:126])))
         lines, impls, metas, n = check_module(r, mk, None, label, m0.speedgrade, rate, mode, fs)
         out = core.run_driver("c16", lines) if lines else []
         judge(r, label, m0.speedgrade, rate, mode, n, lines, impls, metas, out)
-    r.coverage["spd_images"] = 1
-    return r
 
 
 def _dispatch(j):
